@@ -7,11 +7,30 @@ Driver commands for C12 / C17 (stateful mode `schema`).
   stamp <schema> a b c    the version triple is the one the creator is meant to stamp
                           (generated `stampGen`) and the one the public table lists
   detect a b c numeric    Spec table lookup (which schema a reference dump belongs to)
+  canoncls <hex>*         for each text the index of the first text with the same `canon`
+                          (the class table of Gen/SchemaFacts.lean; re-checked by the kernel there)
+
+C17 (Spec/Catalog.lean, Spec/Validator.lean):
+  c17.base <id> <dump>                      register the catalog of a created library (DDL text dropped)
+  c17.exp <id> <label> <tables>             register the expectation tables of the REAL validator for one database file
+                                            (extracted from schema_*.cpp by tools/tr_validators.py); answers whether they are
+                                            closed, accept the created catalog <id>, and equal `expOf created`
+  c17.mut <id> <mutation|-> minus <dump> plus <dump>
+                                            the catalog read back from a rebuilt library = base − minus + plus;
+                                            answers, over all database files of the library,
+                                              walk=   the model of a complete validator (`verifyDb (expOf base)`) accepts it
+                                              same=   `sameCat base new`      plain= `!deviatesPlain base new`
+                                              wf=     both catalogs are well formed
+                                              real=   the extracted tables of the real validator accept it (`na` if none registered)
+                                              pure=   the catalog is exactly `apply m base` for the given single-element
+                                                      mutation `m` (and `applicable m base`); `na` without a mutation
 -/
 import EngineModel.Driver.Loop
 import EngineModel.Driver.Text
 import EngineModel.Spec.SqlCanon
 import EngineModel.Spec.SchemaDump
+import EngineModel.Spec.Catalog
+import EngineModel.Spec.Validator
 import EngineModel.Pure.Detect
 import EngineModel.Gen.DetectGen
 
@@ -66,8 +85,131 @@ structure Entry where
   dump : Dump
   cdump : CDump
 
+/-! ### C17 -/
+section c17
+open EngineModel.Spec
+open EngineModel.Spec.Catalog (ofDump)
+open EngineModel.Spec.Validator
+
+def stripSql (d : Dump) : Dump := { d with master := d.master.map fun r => { r with sql := none } }
+
+def minusL {α} [DecidableEq α] (xs ys : List α) : List α := xs.filter fun x => !ys.contains x
+
+def applyDelta (base minus plus : Dump) : Dump :=
+  ⟨minusL base.master minus.master ++ plus.master,
+   minusL base.tables minus.tables ++ plus.tables,
+   minusL base.indexes minus.indexes ++ plus.indexes⟩
+
+def labelsOf (d : Dump) : List Str := (d.master.map (·.db)).eraseDups
+
+def pCol : P Catalog.Col := do
+  let n ← pStr; let t ← pStr; let nn ← pInt; let d ← pOStr; let pk ← pInt
+  pure ⟨n, t, nn, d.getD [], pk⟩
+
+def pIdx : P Catalog.Idx := do
+  let n ← pStr; let u ← pInt; let o ← pStr; let p ← pInt
+  let cs ← pList (do let s ← pInt; let c ← pOStr; pure (⟨s, c.getD []⟩ : Catalog.IdxCol))
+  pure ⟨⟨n, u, o, p⟩, cs⟩
+
+def pTable : P Catalog.Table := do
+  let n ← pStr; let cs ← pList pCol; let is ← pList pIdx
+  pure ⟨n, cs, is⟩
+
+/-- `<label> <kind> args…` -/
+def pMutation : P (Str × Catalog.Mutation) := do
+  let l ← pPlain
+  let k ← tok
+  let m ← match k with
+    | "dropTable" => Catalog.Mutation.dropTable <$> pStr
+    | "addTable" => Catalog.Mutation.addTable <$> pTable
+    | "renameTable" => Catalog.Mutation.renameTable <$> pStr <*> pStr
+    | "dropView" => Catalog.Mutation.dropView <$> pStr
+    | "addView" => Catalog.Mutation.addView <$> pStr
+    | "renameView" => Catalog.Mutation.renameView <$> pStr <*> pStr
+    | "dropCol" => Catalog.Mutation.dropCol <$> pStr <*> pStr
+    | "addCol" => Catalog.Mutation.addCol <$> pStr <*> pCol
+    | "updCol" => Catalog.Mutation.updCol <$> pStr <*> pStr <*> pCol
+    | "dropIdx" => Catalog.Mutation.dropIdx <$> pStr <*> pStr
+    | "addIdx" => Catalog.Mutation.addIdx <$> pStr <*> pIdx
+    | "updIdx" => Catalog.Mutation.updIdx <$> pStr <*> pStr <*> pIdx
+    | _ => failure
+  pure (l, m)
+
+def pMutOpt : P (Option (Str × Catalog.Mutation)) := do
+  match (← peek) with
+  | some "-" => let _ ← tok; pure none
+  | _ => some <$> pMutation
+
+def pBool : P Bool := do
+  let t ← tok
+  match t with
+  | "1" => pure true
+  | "0" => pure false
+  | _ => failure
+
+def pIdxE : P Catalog.IdxE := do
+  let n ← pStr; let u ← pInt; let o ← pStr; let p ← pInt
+  pure ⟨n, u, o, p⟩
+
+def pIdxColsExp : P IdxColsExp := do
+  let i ← pStr
+  let cs ← pList (do let s ← pInt; let c ← pOStr; pure (⟨s, c.getD []⟩ : Catalog.IdxCol))
+  let nm ← pBool
+  pure ⟨i, cs, nm⟩
+
+def pTableExp : P TableExp := do
+  let n ← pStr
+  let cs ← pList pCol; let cnm ← pBool
+  let is ← pList pIdxE; let inm ← pBool
+  let ic ← pList pIdxColsExp
+  pure ⟨n, cs, cnm, is, inm, ic⟩
+
+def pDbExp : P DbExp := do
+  let ts ← pList pStr; let tnm ← pBool
+  let vs ← pList pStr; let vnm ← pBool
+  let per ← pList pTableExp
+  pure ⟨ts, tnm, vs, vnm, per⟩
+
+/-- same tables up to the order of the per-table descriptions -/
+def sameExp (a b : DbExp) : Bool :=
+  a.tables == b.tables && a.tablesNoMore == b.tablesNoMore && a.views == b.views && a.viewsNoMore == b.viewsNoMore &&
+  a.perTable.all (fun t => b.perTable.contains t) && b.perTable.all (fun t => a.perTable.contains t)
+
+def pMutLine : P (Option (Str × Catalog.Mutation) × Dump × Dump) := do
+  let m ← pMutOpt
+  expect "minus"; let a ← pDump
+  expect "plus"; let b ← pDump
+  pure (m, a, b)
+
+def c17Mut (base : Dump) (exps : List (Str × DbExp)) (m : Option (Str × Catalog.Mutation)) (minus plus : Dump) : String :=
+  let new := applyDelta base minus plus
+  let ls := labelsOf base
+  let pairs := ls.map fun l => (l, ofDump base l, ofDump new l)
+  let walk := pairs.all fun (_, b, n) => verifyDb (expOf b) n
+  let same := pairs.all fun (_, b, n) => sameCat b n
+  let plain := pairs.all fun (_, b, n) => !deviatesPlain b n
+  let wfb := pairs.all fun (_, b, n) => Catalog.wf b && Catalog.wf n
+  let self := pairs.all fun (_, b, _) => verifyDb (expOf b) b && closed (expOf b)
+  let pure := match m with
+    | none => "na"
+    | some (l, mu) =>
+      toString <| pairs.all fun (l', b, n) =>
+        if l' == l then
+          Catalog.applicable mu b && sameCat (Catalog.apply mu b) n && sameCat n (Catalog.apply mu b)
+        else sameCat b n && sameCat n b
+  let real := if exps.isEmpty then "na" else
+    toString <| pairs.all fun (l, _, n) =>
+      match exps.find? (·.1 == l) with
+      | some (_, e) => verifyDb e n
+      | none => false
+  s!"ok walk={walk} same={same} plain={plain} wf={wfb} self={self} real={real} pure={pure}"
+
+end c17
+
 structure State where
   cats : List Entry := []
+  bases : List (String × Dump) := []
+  exps : List (String × Str × EngineModel.Spec.Validator.DbExp) := []
 
 def find (st : State) (id : String) : Option Entry := st.cats.find? (·.id == id)
 
@@ -114,6 +256,36 @@ def step (st : State) (cmd : String) (args : List String) : State × String :=
     match find st a, find st b with
     | some x, some y => (st, s!"ok {decide (x.dump = y.dump)}")
     | _, _ => (st, "bad-op unknown-id")
+  | "c17.base", id :: rest =>
+    match runP pDump rest with
+    | none => (st, "bad-op dump")
+    | some d =>
+      let d := stripSql d
+      ({ st with bases := (id, d) :: st.bases.filter (·.1 != id) },
+       s!"ok master={d.master.length} tables={d.tables.length} labels={(labelsOf d).length}")
+  | "c17.exp", id :: label :: rest =>
+    match st.bases.find? (·.1 == id), runP pDbExp rest with
+    | some (_, base), some e =>
+      let l := label.toList
+      let c := EngineModel.Spec.Catalog.ofDump base l
+      ({ st with exps := (id, l, e) :: st.exps.filter (fun x => !(x.1 == id && x.2.1 == l)) },
+       s!"ok closed={EngineModel.Spec.Validator.closed e} accepts={EngineModel.Spec.Validator.verifyDb e c} expOf={sameExp e (EngineModel.Spec.Validator.expOf c)}")
+    | none, _ => (st, "bad-op unknown-id")
+    | _, none => (st, "bad-op parse")
+  | "c17.mut", id :: rest =>
+    match st.bases.find? (·.1 == id), runP pMutLine rest with
+    | some (_, base), some (m, minus, plus) =>
+      (st, c17Mut base ((st.exps.filter (·.1 == id)).map (·.2)) m minus plus)
+    | none, _ => (st, "bad-op unknown-id")
+    | _, none => (st, "bad-op parse")
+  | "canoncls", a =>
+    match a.mapM (fun t => bytesToStr <$> parseHexBytes t) with
+    | none => (st, "bad-op hex")
+    | some ts =>
+      let cs := (ts.map canonChars).toArray
+      let cls := (List.range cs.size).map fun i =>
+        ((List.range (i + 1)).find? fun j => cs[j]! == cs[i]!).getD i
+      (st, "ok " ++ " ".intercalate (cls.map toString))
   | "stamp", a => (st, stampCmd a)
   | "detect", a => (st, detectCmd a)
   | _, _ => (st, "bad-op unknown")
